@@ -1,0 +1,34 @@
+//go:build verif
+
+package hls
+
+import (
+	"io"
+	"sync/atomic"
+)
+
+// Verification hooks (build tag verif): a schedule point in front of every
+// Write a transport-stream writer makes into an in-memory segment, at which a
+// test harness may run a competing operation (close the stream, open another
+// one). Without an installed callback it does nothing.
+
+var verifSched atomic.Value // func(name string)
+
+// VerifSetSched installs (or, with nil, removes) the schedule-point callback.
+func VerifSetSched(f func(name string)) {
+	if f == nil {
+		f = func(string) {}
+	}
+	verifSched.Store(f)
+}
+
+type verifWriter struct{ w io.Writer }
+
+func (v verifWriter) Write(p []byte) (int, error) {
+	if f, ok := verifSched.Load().(func(string)); ok {
+		f("segment.write")
+	}
+	return v.w.Write(p)
+}
+
+func verifSegmentWriter(w io.Writer) io.Writer { return verifWriter{w} }
